@@ -19,6 +19,7 @@ pub mod c13;
 pub mod c16;
 pub mod c17;
 pub mod c18;
+pub mod c19;
 
 pub fn n_cases(ctx: &Ctx) -> u64 {
     match ctx.prop.as_str() {
@@ -39,6 +40,7 @@ pub fn n_cases(ctx: &Ctx) -> u64 {
         "C16" => c16::n_cases(ctx),
         "C17" => c17::n_cases(ctx),
         "C18" => c18::n_cases(ctx),
+        "C19" => c19::n_cases(ctx),
         _ => 0,
     }
 }
@@ -62,6 +64,7 @@ pub fn run_case(ctx: &Ctx, idx: u64) -> Vec<CaseOut> {
         "C16" => c16::run_case(ctx, idx),
         "C17" => c17::run_case(ctx, idx),
         "C18" => c18::run_case(ctx, idx),
+        "C19" => c19::run_case(ctx, idx),
         _ => Vec::new(),
     }
 }
@@ -87,6 +90,7 @@ pub fn describe(ctx: &Ctx, idx: u64) -> String {
             )
         }
         "C06" => c06::describe(ctx, idx),
+        "C19" => c19::describe(ctx, idx),
         _ => (String::new(), String::new(), "crash".to_string(), format!("case {idx}")),
     };
     crate::util::Obj::new()
